@@ -229,3 +229,30 @@ def settings_owned(ctx, dim, via, what):
             shift[0] += per0[0]
             ok = ok and np.allclose(g(x), ref(x), rtol=1e-10, atol=1e-12) and np.allclose(g(x), g(shift), rtol=1e-9, atol=1e-10)
     ctx.ensure("period,mode_no=as-given;field=fresh-generator;periodic-with-the-given-period", ok)
+
+
+@contract(P, "Fourier.update[rejected-arguments]/generator-unchanged",
+          params=[{"dim": d, "bad": b} for d in (1, 2) for b in ("odd-mode_no", "odd-mode_no-alone")],
+          functions=["field/generator.py:Fourier.update", "field/generator.py:Fourier._fill_to_dim"], timeout=30,
+          nsamples=2, search=20)
+def rejected_update(ctx, dim, bad):
+    """update history with a REJECTED update (ValueError): the generator keeps all its settings -- the period it
+    reports is still the period of its mode mesh, i.e. the field stays periodic with the period reported"""
+    from contracts.c11 import gen_view, views_equal
+    mod = sym_model(ctx, dim, nugget=False)
+    per = ctx.reals("per", dim, pos=True)
+    per2 = ctx.reals("per2_", dim, pos=True)
+    for p in list(per) + list(per2):
+        ctx.require(ctx.gt(p, 0))
+    s = ctx.integer("seed", lo=1, hi=1000)
+    g = _q(Fourier, mod, period=per, mode_no=[2] * dim, seed=s)
+    kw = {"odd-mode_no": dict(period=per2, mode_no=[3] + [2] * (dim - 1)),
+          "odd-mode_no-alone": dict(mode_no=[2] * (dim - 1) + [5])}[bad]
+    try:
+        g.update(**kw)
+        ctx.ensure("ValueError", False)
+        ctx.done()
+    except ValueError:
+        ctx.ensure("ValueError", True)
+    fresh = _q(Fourier, mod, period=per, mode_no=[2] * dim, seed=s)
+    ctx.ensure("state=generator-with-the-old-settings", views_equal(ctx, gen_view(g), gen_view(fresh)))
